@@ -420,6 +420,33 @@ func (c *c01) genBit(depth int, maxBytes int) *bitNode {
 	}
 }
 
+// stepGuard counts the reader calls one bitio.ReadAtFull/ReadFull makes: a correct reader delivers at least
+// one bit per call (or an error), so n bits need at most n calls; a reader that keeps answering (0, nil)
+// makes the stitching loop spin. Decided on logical steps (calls), not on wall-clock time.
+type stepGuard struct {
+	r     bitio.ReaderAtSeeker
+	calls int64
+	limit int64
+}
+
+func guard(r bitio.ReaderAtSeeker, nBits int64) *stepGuard {
+	return &stepGuard{r: r, limit: 2*max(nBits, 0) + 1000}
+}
+func (g *stepGuard) step() {
+	g.calls++
+	if g.calls > g.limit {
+		panic(fmt.Sprintf("no-progress: more than %d reader calls for one full read", g.limit))
+	}
+}
+func (g *stepGuard) ReadBitsAt(p []byte, n int64, off int64) (int64, error) {
+	g.step()
+	return g.r.ReadBitsAt(p, n, off)
+}
+func (g *stepGuard) ReadBits(p []byte, n int64) (int64, error) {
+	g.step()
+	return g.r.ReadBits(p, n)
+}
+
 // ZeroReadAtSeeker has no ReadBits; fq always wraps it in a MultiReader/section. Give it a cursor so it
 // can sit anywhere in a tree (the cursor logic is the harness's, positional reads are the real code).
 type zeroRAS struct{ z *verifx.ZeroReadAtSeeker }
@@ -606,7 +633,7 @@ func (c *c01) opBit(nodes *[]*bitNode) {
 		n := c.pickLen(max(L-off, 0))
 		p := r.Bytes(int((n+7)/8) + 1)
 		c.logf("ReadAtFull(n=%d, off=%d)", n, off)
-		m, err := bitio.ReadAtFull(nd.r, p, n, off)
+		m, err := bitio.ReadAtFull(guard(nd.r, n), p, n, off)
 		c.logf("  -> (%d,%v)", m, err)
 		c.run.Count("op:ReadAtFull", 1)
 		if off+n <= L {
@@ -630,7 +657,7 @@ func (c *c01) opBit(nodes *[]*bitNode) {
 		}
 		p := r.Bytes(int((n+7)/8) + 1)
 		c.logf("ReadFull(n=%d) at pos %d", n, nd.pos)
-		m, err := bitio.ReadFull(nd.r, p, n)
+		m, err := bitio.ReadFull(guard(nd.r, n), p, n)
 		c.logf("  -> (%d,%v)", m, err)
 		c.run.Count("op:ReadFull", 1)
 		if err != nil || m != n {
